@@ -11,11 +11,11 @@ import (
 // RangeRemoval is one `X = append(X[:i], X[i+1:]...)`-style shrink of the
 // slice being ranged over.
 type RangeRemoval struct {
-	Pk       *packages.Package
-	Fd       *ast.FuncDecl
-	Range    *ast.RangeStmt
-	Assign   *ast.AssignStmt
-	X        string
+	Pk        *packages.Package
+	Fd        *ast.FuncDecl
+	Range     *ast.RangeStmt
+	Assign    *ast.AssignStmt
+	X         string
 	Continues bool // the loop may run another iteration after the removal
 }
 
